@@ -337,7 +337,14 @@ impl<'a> Gen<'a> {
         _ => "[a, b, Order Size]".into(),
       };
     }
-    match self.rng.index(17) {
+    match self.rng.index(22) {
+      // sandwich probes (see `scan_sandwiches`): the same names read before and after an expression in one frame -
+      // the caller's, an iteration's, an invocation's, a context literal's, a filter's
+      17 => format!("[\"sw#\", [a, b, zq, s], {}, [a, b, zq, s]]", self.any(d - 1)),
+      18 => format!("(for x in {} return [\"sw#\", [x, a, zq], {}, [x, a, zq]])", self.list(d - 1), self.any(d - 1)),
+      19 => format!("(function(x, y) [\"sw#\", [x, y, a, q], {}, [x, y, a, q]])({}, {})", self.any(d - 1), self.num(d - 1), self.num(d - 1)),
+      20 => format!("{{k: {}, x: k, r: [\"sw#\", [k, x, a, u], {}, [k, x, a, u]]}}.r", self.num(d - 1), self.any(d - 1)),
+      21 => format!("(for q in people[age > 0] return [\"sw#\", [q.age, a, x], {}, [q.age, a, x]])", self.any(d - 1)),
       0 => format!("[{}, {}, {}]", self.num(d - 1), self.num(d - 1), self.num(d - 1)),
       1 => format!("(for x in {} return x + {})", self.list(d - 1), self.num(d - 1)),
       2 => format!("(for x in 1..{}, y in {} return x * y)", 1 + self.rng.below(4), self.list(d - 1)),
@@ -480,7 +487,15 @@ const TABLES: [&str; 3] = [
 ];
 
 /// (model, invocable, input context template; `$X` is replaced by the input variant of the operation)
-const MODEL_CALLS: [(&str, &str, &str); 36] = [
+const MODEL_CALLS: [(&str, &str, &str); 44] = [
+  ("gen", "sw1", "{x: $X, s: \"w$X\"}"),
+  ("gen", "sw2", "{x: $X, s: \"v$X\"}"),
+  ("gen", "sw3", "{x: $X}"),
+  ("gen", "sw4", "{x: $X}"),
+  ("gen", "sw6", "{x: $X}"),
+  ("gen", "sw7", "{x: $X, s: \"ab$X_1\"}"),
+  ("gen", "nest", "{p: $X}"),
+  ("gen", "defaults", "{}"),
   ("gen", "misc", "{x: $X, s: \"m$X\"}"),
   // an invocation whose callee depends on the input; calls that leave an input or a parameter out
   ("gen", "inv2", "{x: $X}"),
@@ -581,7 +596,50 @@ fn expr_class(text: &str) -> &'static str {
 }
 
 fn value_text(v: &FeelValue) -> String {
+  scan_sandwiches(v);
   format!("{:?}", v)
+}
+
+/// *Sandwich probes.* A frame that is private to an evaluation (the parameters of an invocation, the entries of a
+/// boxed context evaluated so far, an iteration variable) cannot be looked at from outside, so the generated
+/// expressions and the simulator's models look at it themselves: `["sw#", N, E, N]` evaluates the same names `N`
+/// before and after an expression `E` in ONE frame, a (boxed) context does the same with the entries `swb` and `swa`.
+/// Evaluating `E` must not alter the context it is evaluated in, so both readings have to be equal wherever they
+/// turn up in a result. The first pair that differs is parked here and picked up by the operation that evaluated.
+static SANDWICH: std::sync::Mutex<Option<(String, String)>> = std::sync::Mutex::new(None);
+static SANDWICHES_SEEN: std::sync::atomic::AtomicU64 = std::sync::atomic::AtomicU64::new(0);
+
+fn scan_sandwiches(v: &FeelValue) {
+  fn differ(b: &FeelValue, a: &FeelValue) {
+    SANDWICHES_SEEN.fetch_add(1, std::sync::atomic::Ordering::Relaxed);
+    let (b, a) = (format!("{:?}", b), format!("{:?}", a));
+    if b != a {
+      let mut slot = SANDWICH.lock().unwrap_or_else(|e| e.into_inner());
+      if slot.is_none() {
+        *slot = Some((b, a));
+      }
+    }
+  }
+  match v {
+    FeelValue::List(items) => {
+      let items = items.as_vec();
+      if items.len() == 4 && matches!(&items[0], FeelValue::String(m) if m == "sw#") {
+        differ(&items[1], &items[3]);
+      }
+      items.iter().for_each(scan_sandwiches);
+    }
+    FeelValue::Context(ctx) => {
+      if let (Some(b), Some(a)) = (ctx.get_entry(&"swb".into()), ctx.get_entry(&"swa".into())) {
+        differ(b, a);
+      }
+      ctx.get_entries().into_iter().for_each(|(_, value)| scan_sandwiches(value));
+    }
+    _ => {}
+  }
+}
+
+fn take_sandwich() -> Option<(String, String)> {
+  SANDWICH.lock().unwrap_or_else(|e| e.into_inner()).take()
 }
 
 /// Wrapper that lets a closure borrowing `!Sync` objects (a `Scope` holds a `RefCell`) run on another
@@ -618,6 +676,8 @@ impl C13 {
     let clock0 = pi64(plan, "clock0");
     simrt::clock_set(clock0, 0);
     simrt::clock_reset_reads();
+    SANDWICHES_SEEN.store(0, std::sync::atomic::Ordering::Relaxed);
+    take_sandwich();
     // ---- the pool
     let scope_specs: Vec<(u64, u64)> = parr(plan, "scopes").iter().map(|s| (pu64(s, "v"), pu64(s, "layers"))).collect();
     let mut scopes: Vec<Scope> = vec![];
@@ -831,11 +891,22 @@ impl C13 {
               c.add("burst.evaluations", rep);
               let _ = catch_unwind(AssertUnwindSafe(|| (0..rep).for_each(|_| drop((**ev)(scope_ref)))));
             }
+            take_sandwich();
             let r = on_thread(ho, || catch_unwind(AssertUnwindSafe(|| value_text(&(**ev)(scope_ref)))));
             let text = exprs[e].text.clone();
             match r {
               Ok(v) => {
                 let after = snapshot(&scopes[s]);
+                if let Some((b, a)) = take_sandwich() {
+                  out.violation = Some(viol(
+                    "evaluation-changed-inner-context",
+                    expr_class(&text),
+                    idx,
+                    format!("in `{}` the names read before a sub-expression read the same after it (one frame): {}", text, b),
+                    a,
+                  ));
+                  break;
+                }
                 log(format!("eval e{} on s{} day {} -> {}", e, s, day, v.chars().take(120).collect::<String>()), &mut h, &mut tail);
                 if before != after {
                   out.violation = Some(viol(
@@ -1044,11 +1115,22 @@ impl C13 {
             c.add("burst.evaluations", rep);
             let _ = catch_unwind(AssertUnwindSafe(|| (0..rep).for_each(|_| drop(me.evaluate_invocable(&inv, &input)))));
           }
+          take_sandwich();
           let r = on_thread(ho, || catch_unwind(AssertUnwindSafe(|| value_text(&me.evaluate_invocable(&inv, &input)))));
           let day = simrt::clock_days();
           match r {
             Ok(v) => {
               let after = (input.to_string(), format!("{:?}", input));
+              if let Some((b, a)) = take_sandwich() {
+                out.violation = Some(viol(
+                  "evaluation-changed-inner-context",
+                  &format!("model:{}/{}", model, inv),
+                  idx,
+                  format!("in {}/{} on {} the names read before a nested expression read the same after it (one frame): {}", model, inv, input, b),
+                  a,
+                ));
+                break;
+              }
               log(format!("model {}/{} input {} -> {}", model, inv, x, v.chars().take(120).collect::<String>()), &mut h, &mut tail);
               if before != after {
                 out.violation = Some(viol("evaluation-changed-input-context", &format!("{}/{}", model, inv), idx, format!("the input context is untouched: {}", before.0), after.0));
@@ -1092,6 +1174,7 @@ impl C13 {
       }
     }
     c.add("clock.reads", simrt::clock_reads());
+    c.add("sandwich.pairs_compared", SANDWICHES_SEEN.swap(0, std::sync::atomic::Ordering::Relaxed));
     c.inc(&format!("len.{:02}", (ops.len() / 10) * 10));
     out.counters = c;
     out.log_hash = h.finish();
